@@ -309,6 +309,7 @@ def main():
     cases_run = 0
     restarts = 0
     stage_info = []
+    folds = []
     try:
         for stage in cfg['stages']:
             if tier not in stage.get('tiers', ('quick', 'thorough')):
@@ -321,6 +322,7 @@ def main():
                 import special
                 results = special.RUNNERS[runner](prop, tier, seed, stage, workdir, sys.modules[__name__])
             st_eval = 0
+            st_feats = {}
             for r in results:
                 if r.inconclusive:
                     inconclusive.append('%s: %s' % (stage['driver'], r.inconclusive))
@@ -338,13 +340,27 @@ def main():
                         counters[k] = counters.get(k, 0) + v
                     for k, v in rep.get('features', {}).items():
                         features.setdefault(k, set()).update(v)
+                        st_feats.setdefault(k, set()).update(v)
                     for s in rep.get('samples', []):
                         if len(samples) < 5:
                             samples.append(s)
             stage_info.append(dict(driver=stage['driver'], flavour=stage['flavour'], runner=runner,
                                    evaluations=st_eval, wall_s=round(time.time() - ts, 2)))
+            if stage.get('fold_feature'):
+                folds.append((stage['flavour'], st_feats.get(stage['fold_feature'], set())))
     except Exception as e:  # build failure or harness bug: inconclusive, never a verdict
         inconclusive.append('harness failure: %s' % str(e)[-3000:])
+
+    # stages that must produce identical outputs (same seed, same shards, different build flavour)
+    if len(folds) >= 2 and not inconclusive:
+        base_flavour, base = folds[0]
+        for fl, f in folds[1:]:
+            if f != base:
+                diff = sorted(base ^ f)[:6]
+                violations.append(dict(prop=prop, key='%s:outputs-differ-between-build-flavours' % prop, case=-1, seed=seed, tier=tier,
+                                       detail='per-shard output digests differ between the %s and %s builds (shard:digest entries that differ: %s)' % (base_flavour, fl, ', '.join(diff)),
+                                       input='', driver=cfg['stages'][0]['driver'], flavour=fl))
+    features.pop('case_digest_fold', None)
 
     # only violations of this property count (drivers run neighbouring oracles too)
     own = [v for v in violations if v.get('prop') == prop]
